@@ -21,7 +21,9 @@ Alphabet == << <<I("a")>>, <<I("b")>>, <<I("a"), I("b")>>, <<I("b"), I("a")>>, <
                <<I("a"), V("v"), I("b")>>, <<I("a"), Dots, I("a")>>, <<F(2), HV("v"), I("a")>> >>
 \* symbolic annotations (only used where the names they use are bound earlier)
 SymAlphabet == << <<SymT(<<"+", <<"n", "a">>, <<"i", 1>>>>)>>, <<SymT(<<"*", <<"n", "a">>, <<"n", "b">>>>)>>,
-                  <<I("a"), SymT(<<"-", <<"n", "a">>, <<"i", 1>>>>)>>, <<SymT(<<"a", "n">>)>> >>
+                  <<I("a"), SymT(<<"-", <<"n", "a">>, <<"i", 1>>>>)>>, <<SymT(<<"a", "n">>)>>,
+                  \* true division: a value that is not integral matches no size
+                  <<SymT(<<"/", <<"n", "a">>, <<"i", 2>>>>)>>, <<SymT(<<"/", <<"+", <<"n", "a">>, <<"n", "b">>>>, <<"i", 2>>>>)>> >>
 Shapes == << << >>, <<1>>, <<2>>, <<3>>, <<2, 3>>, <<3, 2>>, <<2, 2>>, <<1, 3>>, <<2, 1>>, <<3, 3>>, <<2, 3, 2>>, <<1, 2, 3>> >>
 ASSUME JsonSerialize(IOEnv.VERIF_OUT, [alphabet |-> Alphabet, sym |-> SymAlphabet, shapes |-> Shapes])
 VARIABLE x
